@@ -70,6 +70,30 @@ fn hostile_text(rng: &mut Rng, marker: &str) -> String {
         s.push_str("\n\n");
         s.push_str(p(rng));
     }
+    // code blocks: indented, or fenced (sometimes with an empty line inside)
+    match rng.below(10) {
+        0 => {
+            s.push_str("\n\n    ");
+            s.push_str(p(rng));
+            s.push_str("\n    ");
+            s.push_str(p(rng));
+        }
+        1 => {
+            s.push_str("\n\n```\n");
+            s.push_str(p(rng));
+            s.push('\n');
+            if rng.chance(1, 2) {
+                s.push('\n');
+            }
+            s.push_str(p(rng));
+            s.push_str("\n```");
+            if rng.chance(1, 2) {
+                s.push_str("\n\n");
+                s.push_str(p(rng));
+            }
+        }
+        _ => {}
+    }
     s
 }
 
